@@ -230,8 +230,8 @@ func replayIndex(replay string) int {
 	}
 	must(json.Unmarshal(b, &rp))
 	if rp.Case.Index == nil {
-		fmt.Println("replay file names no case index: re-run the check with the same seed and tier to repeat it")
-		os.Exit(0)
+		fmt.Println("replay file names no single case (a probe or stress run): repeating the whole run with its seed and tier")
+		return -1
 	}
 	return *rp.Case.Index
 }
